@@ -45,6 +45,7 @@ const (
 	tStat  ty = "Go.FileInfo" // os.FileInfo as far as the translated code looks at it
 	tInfo  ty = "Go.UnpackInfo" // unpackinfo.UnpackInfo: (path, typeflag)
 	tFS    ty = "FS"
+	tSrc   ty = "Str × Str" // sourceaddrs.RemoteSource / RegistrySource: (package as printed — opaque here, sub-path)
 	tUnknown ty = "?"
 )
 
@@ -96,7 +97,7 @@ type target struct {
 }
 
 // types of the extra parameters
-var extraTypes = map[string]ty{"cwd": tStr, "allowSymlinkTargets": tStrs, "rules": tRules, "fs": tFS}
+var extraTypes = map[string]ty{"cwd": tStr, "allowSymlinkTargets": tStrs, "rules": tRules, "fs": tFS, "lines": tStrs}
 
 // parameters of pointer-to-struct type that are passed as the fields the code reads: parameter name ->
 // field -> (Lean parameter name, type)
@@ -138,6 +139,9 @@ var targets = []target{
 	{"internal/unpackinfo/unpackinfo.go", "UnpackInfo", "IsTypeX", "isTypeX", nil},
 	{"internal/unpackinfo/unpackinfo.go", "UnpackInfo", "IsRegular", "isRegular", nil},
 	{"internal/unpackinfo/unpackinfo.go", "", "NewUnpackInfo", "newUnpackInfo", []string{"fs"}},
+	{"sourceaddrs/source_registry.go", "RegistrySource", "FinalSourceAddr", "finalSourceAddr", nil},
+	{"sourceaddrs/subpath.go", "", "ValidSubPath", "validSubPath", nil},
+	{"internal/ignorefiles/terraformignore.go", "", "readRules", "readRules", []string{"lines"}},
 }
 
 var leanKeywords = map[string]bool{"end": true, "from": true, "at": true, "have": true, "show": true, "match": true,
@@ -162,6 +166,8 @@ type sig struct {
 type tr struct {
 	recvName string   // name of the receiver variable ("" if none)
 	recvType string   // its type name
+	scanner  string   // name of a bufio.Scanner variable over the "lines" parameter ("" if none)
+	lineVar  string   // Lean name of the current line inside `for scanner.Scan()`
 	extra    []string // extra parameters available in this function
 	fset   *token.FileSet
 	sigs   map[string]sig // translated functions by Go name
@@ -248,6 +254,9 @@ func typeOf(e ast.Expr) ty {
 		}
 		if x.Name == "UnpackInfo" {
 			return tInfo
+		}
+		if x.Name == "RemoteSource" || x.Name == "RegistrySource" {
+			return tSrc
 		}
 		if x.Name == "byte" {
 			return tChar
@@ -345,10 +354,16 @@ func (t *tr) expr(e ast.Expr, want ty) (string, ty) {
 			if want == tErr {
 				return "false", tErr
 			}
+			if want == tRules {
+				return "([] : List Rule)", tRules
+			}
 			fail("nil outside an error position")
 		}
 		l, ok := t.lookup(x.Name)
 		if !ok {
+			if x.Name == "defaultExclusions" {
+				return "Go.defaultExclusions", tRules
+			}
 			fail("unknown identifier %s", x.Name)
 		}
 		return l, t.types[l]
@@ -499,6 +514,28 @@ func (t *tr) expr(e ast.Expr, want ty) (string, ty) {
 				}
 			}
 		}
+		if id, ok := x.Type.(*ast.Ident); ok && id.Name == "rule" && len(x.Elts) == 0 {
+			return "Go.zeroRule", tRule
+		}
+		if id, ok := x.Type.(*ast.Ident); ok && (id.Name == "RemoteSource" || id.Name == "RegistrySource") {
+			pk, sub := "([] : Str)", "([] : Str)"
+			for _, el := range x.Elts {
+				kv, ok := el.(*ast.KeyValueExpr)
+				if !ok {
+					fail("positional composite literal")
+				}
+				k, _ := kv.Key.(*ast.Ident)
+				switch {
+				case k != nil && k.Name == "pkg":
+					pk, _ = t.expr(kv.Value, tStr)
+				case k != nil && k.Name == "subPath":
+					sub, _ = t.expr(kv.Value, tStr)
+				default:
+					fail("field of a source address literal")
+				}
+			}
+			return "((" + pk + ", " + sub + ") : Str × Str)", tSrc
+		}
 		if id, ok := x.Type.(*ast.Ident); ok && id.Name == "UnpackInfo" {
 			pathV, flagV := "([] : Str)", "(Char.ofNat 0)"
 			for _, el := range x.Elts {
@@ -566,6 +603,19 @@ func (t *tr) expr(e ast.Expr, want ty) (string, ty) {
 		if fl, ok := tarFlags[exprName(x)]; ok {
 			return fl, tChar
 		}
+		if n := exprName(x); n == "os.PathSeparator" || n == "filepath.Separator" {
+			return "'/'", tChar
+		}
+		// rules[i].field
+		if ix, ok := x.X.(*ast.IndexExpr); ok {
+			a, ta := t.expr(ix.X, "")
+			i, _ := t.expr(ix.Index, tInt)
+			if ta == tRules {
+				if f, ok := ruleFields[x.Sel.Name]; ok {
+					return "(Go.ruleAt " + a + " " + i + ")." + f[0], ty(f[1])
+				}
+			}
+		}
 		if id, ok := x.X.(*ast.Ident); ok {
 			if fields, ok := structParams[id.Name]; ok {
 				if _, shadow := t.lookup(id.Name); !shadow {
@@ -573,6 +623,14 @@ func (t *tr) expr(e ast.Expr, want ty) (string, ty) {
 						return f[0], ty(f[1])
 					}
 					fail("field %s of %s", x.Sel.Name, id.Name)
+				}
+			}
+			if l, ok := t.lookup(id.Name); ok && t.types[l] == tSrc {
+				switch x.Sel.Name {
+				case "pkg":
+					return l + ".1", tStr
+				case "subPath":
+					return l + ".2", tStr
 				}
 			}
 			if l, ok := t.lookup(id.Name); ok && t.types[l] == tInfo {
@@ -607,6 +665,9 @@ func (t *tr) expr(e ast.Expr, want ty) (string, ty) {
 			if ts == tStrs {
 				return "(Go.lenList " + s + ")", tInt
 			}
+			if ts == tRules {
+				return "(Go.lenRules " + s + ")", tInt
+			}
 			if ts != tStr {
 				fail("len of a non-string")
 			}
@@ -614,6 +675,33 @@ func (t *tr) expr(e ast.Expr, want ty) (string, ty) {
 		}
 		if name == "fmt.Errorf" || name == "errors.New" {
 			return "true", tErr
+		}
+		if t.scanner != "" && name == t.scanner+".Text" {
+			if t.lineVar == "" {
+				fail("scanner.Text() outside the scanning loop")
+			}
+			return t.lineVar, tStr
+		}
+		if t.scanner != "" && name == t.scanner+".Err" {
+			// reading the lines cannot fail in the model (the reader is given as its lines)
+			return "false", tErr
+		}
+		if name == "make" && len(x.Args) == 2 {
+			if at, ok := x.Args[0].(*ast.ArrayType); ok && at.Len == nil && exprText(at.Elt) == "rule" {
+				n, tn := t.expr(x.Args[1], tInt)
+				if tn != tInt {
+					fail("make length")
+				}
+				return "(Go.zeroRules " + n + ")", tRules
+			}
+		}
+		if name == "append" && len(x.Args) == 2 {
+			a, ta := t.expr(x.Args[0], "")
+			b, tb := t.expr(x.Args[1], "")
+			if ta == tRules && tb == tRule {
+				return "(" + a + " ++ [" + b + "])", tRules
+			}
+			fail("append of %s to %s", tb, ta)
 		}
 		var f sig
 		if sel, ok := x.Fun.(*ast.SelectorExpr); ok {
@@ -803,7 +891,81 @@ func (t *tr) block(ind int, stmts []ast.Stmt) {
 
 func (t *tr) stmt(ind int, s ast.Stmt) {
 	switch x := s.(type) {
+	case *ast.ExprStmt:
+		c, ok := x.X.(*ast.CallExpr)
+		if !ok {
+			fail("expression statement")
+		}
+		name := callName(c.Fun)
+		switch {
+		case name == "copy" && len(c.Args) == 2:
+			dst, ok := c.Args[0].(*ast.Ident)
+			if !ok {
+				fail("copy target")
+			}
+			l, ok := t.lookup(dst.Name)
+			if !ok || t.types[l] != tRules {
+				fail("copy into %s", dst.Name)
+			}
+			src, ts := t.expr(c.Args[1], tRules)
+			if ts != tRules {
+				fail("copy from %s", ts)
+			}
+			t.emit(ind, fmt.Sprintf("%s := Go.copyRules %s %s", l, l, src))
+		case t.scanner != "" && (name == t.scanner+".Buffer" || name == t.scanner+".Split"):
+			// configuration of the scanner: line splitting without a length limit is what `lines` is
+			if name == t.scanner+".Split" && (len(c.Args) != 1 || exprText(c.Args[0]) != "bufio.ScanLines") {
+				fail("scanner split function")
+			}
+		default:
+			fail("call statement %s", name)
+		}
+		return
 	case *ast.AssignStmt:
+		// scanner := bufio.NewScanner(input)
+		if x.Tok == token.DEFINE && len(x.Lhs) == 1 && len(x.Rhs) == 1 {
+			if c, ok := x.Rhs[0].(*ast.CallExpr); ok && callName(c.Fun) == "bufio.NewScanner" {
+				hasLines := false
+				for _, e := range t.extra {
+					hasLines = hasLines || e == "lines"
+				}
+				if !hasLines || t.scanner != "" {
+					fail("bufio.NewScanner")
+				}
+				t.scanner = x.Lhs[0].(*ast.Ident).Name
+				return
+			}
+		}
+		// v.field = e   and   xs[i].field = e   for the modelled rule structure
+		if x.Tok == token.ASSIGN && len(x.Lhs) == 1 && len(x.Rhs) == 1 {
+			if sel, ok := x.Lhs[0].(*ast.SelectorExpr); ok {
+				if f, ok := ruleFields[sel.Sel.Name]; ok {
+					if id, ok := sel.X.(*ast.Ident); ok {
+						if l, ok := t.lookup(id.Name); ok && t.types[l] == tRule {
+							v, tv := t.expr(x.Rhs[0], ty(f[1]))
+							if tv != ty(f[1]) {
+								fail("field assignment type")
+							}
+							t.emit(ind, fmt.Sprintf("%s := { %s with %s := %s }", l, l, f[0], v))
+							return
+						}
+					}
+					if ix, ok := sel.X.(*ast.IndexExpr); ok {
+						if id, ok := ix.X.(*ast.Ident); ok {
+							if l, ok := t.lookup(id.Name); ok && t.types[l] == tRules {
+								i, _ := t.expr(ix.Index, tInt)
+								v, tv := t.expr(x.Rhs[0], ty(f[1]))
+								if tv != ty(f[1]) {
+									fail("field assignment type")
+								}
+								t.emit(ind, fmt.Sprintf("%s := Go.setRuleAt %s %s (fun r => { r with %s := %s })", l, l, i, f[0], v))
+								return
+							}
+						}
+					}
+				}
+			}
+		}
 		switch x.Tok {
 		case token.DEFINE:
 			t.assignNew(ind, x.Lhs, x.Rhs, true)
@@ -925,6 +1087,63 @@ func (t *tr) stmt(ind int, s ast.Stmt) {
 		t.block(ind+1, x.Body.List)
 		t.pop()
 	case *ast.ForStmt:
+		// for scanner.Scan() { ... }
+		if x.Init == nil && x.Post == nil && t.scanner != "" {
+			if c, ok := x.Cond.(*ast.CallExpr); ok && callName(c.Fun) == t.scanner+".Scan" {
+				if t.lineVar != "" {
+					fail("nested scanning loop")
+				}
+				t.push()
+				t.used["line"]++
+				lv := fmt.Sprintf("line_%d", t.used["line"])
+				t.emit(ind, fmt.Sprintf("for %s in lines do", lv))
+				t.lineVar = lv
+				t.block(ind+1, x.Body.List)
+				t.lineVar = ""
+				t.pop()
+				return
+			}
+		}
+		// for i := E; i >= 0; i-- { ... }  with i not assigned in the body
+		if init, ok := x.Init.(*ast.AssignStmt); ok && init.Tok == token.DEFINE && len(init.Lhs) == 1 && len(init.Rhs) == 1 {
+			if cond, ok := x.Cond.(*ast.BinaryExpr); ok && cond.Op == token.GEQ {
+				if post, ok := x.Post.(*ast.IncDecStmt); ok && post.Tok == token.DEC {
+					iv, ok := init.Lhs[0].(*ast.Ident)
+					lit, ok2 := cond.Y.(*ast.BasicLit)
+					if ok && ok2 && lit.Value == "0" && exprText(cond.X) == iv.Name && exprText(post.X) == iv.Name {
+						assigned := false
+						ast.Inspect(x.Body, func(n ast.Node) bool {
+							switch a := n.(type) {
+							case *ast.AssignStmt:
+								for _, l := range a.Lhs {
+									if exprText(l) == iv.Name {
+										assigned = true
+									}
+								}
+							case *ast.IncDecStmt:
+								if exprText(a.X) == iv.Name {
+									assigned = true
+								}
+							}
+							return true
+						})
+						if assigned {
+							fail("loop variable assigned in the body")
+						}
+						t.push()
+						start, ts := t.expr(init.Rhs[0], tInt)
+						if ts != tInt {
+							fail("loop start of type %s", ts)
+						}
+						v := t.declare(iv.Name, tInt)
+						t.emit(ind, fmt.Sprintf("for %s in Go.rangeDown %s do", v, start))
+						t.block(ind+1, x.Body.List)
+						t.pop()
+						return
+					}
+				}
+			}
+		}
 		// for i := 0; i < N; i++ { ... }  with i not assigned in the body
 		init, ok1 := x.Init.(*ast.AssignStmt)
 		cond, ok2 := x.Cond.(*ast.BinaryExpr)
@@ -1013,6 +1232,10 @@ func signature(fd *ast.FuncDecl) (names []string, args []ty, res []ty) {
 			names = append(names, fd.Recv.List[0].Names[0].Name)
 			args = append(args, tInfo)
 		}
+		if id, ok := fd.Recv.List[0].Type.(*ast.Ident); ok && (id.Name == "RemoteSource" || id.Name == "RegistrySource") {
+			names = append(names, fd.Recv.List[0].Names[0].Name)
+			args = append(args, tSrc)
+		}
 	}
 	for _, p := range fd.Type.Params.List {
 		// a pointer-to-struct parameter is passed as the fields the code reads
@@ -1029,6 +1252,9 @@ func signature(fd *ast.FuncDecl) (names []string, args []ty, res []ty) {
 				}
 				continue
 			}
+		}
+		if exprText(p.Type) == "io.Reader" {
+			continue // the reader is read through a bufio.Scanner only: passed as the list of its lines
 		}
 		pt := typeOf(p.Type)
 		for _, n := range p.Names {
@@ -1085,9 +1311,9 @@ func translate(fset *token.FileSet, fd *ast.FuncDecl, tg target, sigs map[string
 			params = append(params, fmt.Sprintf("(%s : %s)", n[1:], args[i]))
 			continue
 		}
-		if args[i] == tInfo && n == t.recvName {
+		if (args[i] == tInfo || args[i] == tSrc) && n == t.recvName {
 			t.scopes[len(t.scopes)-1][n] = n
-			t.types[n] = tInfo
+			t.types[n] = args[i]
 			t.used[n]++
 			params = append(params, fmt.Sprintf("(%s : %s)", n, args[i]))
 			continue
@@ -1109,7 +1335,7 @@ func translate(fset *token.FileSet, fd *ast.FuncDecl, tg target, sigs map[string
 	}
 	t.emit(0, fmt.Sprintf("def %s %s : %s := Id.run do", tg.lean, strings.Join(params, " "), rt))
 	for i, n := range names {
-		if strings.HasPrefix(n, "\x00") || (args[i] == tInfo && n == t.recvName) {
+		if strings.HasPrefix(n, "\x00") || ((args[i] == tInfo || args[i] == tSrc) && n == t.recvName) {
 			continue
 		}
 		l, _ := t.lookup(n)
